@@ -24,6 +24,12 @@ def ext_call(eng, st, name, args, kwargs, node):
         eng.fr.assumed_used.add("AES-CBC (pycryptodome): uninterpreted, length preserving, decrypt inverts encrypt on "
                                 "block-aligned data, ValueError on unaligned data / bad key or IV length")
         return [(st, VConst(("aes", key, iv), "aescipher"))]
+    if name in ("io.BufferedReader", "io:BufferedReader"):
+        f = args[0]
+        if isinstance(f, VRef) and isinstance(st.heap.get(f.ident), dict) and st.heap[f.ident].get("__kind__") == "file":
+            eng.fr.assumed_used.add("io.BufferedReader over BytesIO: same content/position, peek(n) returns a non-empty prefix of the rest unless at EOF")
+            return [(st, f)]
+        raise Unsupported("BufferedReader over a non-file")
     if name == "collections.Counter":
         if not args:
             raise Unsupported("empty Counter()")
